@@ -15,7 +15,6 @@ import (
 	"path/filepath"
 	"runtime"
 	"runtime/debug"
-	"runtime/pprof"
 	"sort"
 	"strconv"
 	"strings"
@@ -695,7 +694,15 @@ func genOverride(r *vlib.Rand) [2]*int {
 func opRS(e *sink, r *rtr, ov [2]*int, cs []call, p *pkt, how string) {
 	tries := 1
 	if p.dst.class == "svc" {
-		tries = 40
+		// Services.Any draws at random: draw often enough to see every candidate (the chance of
+		// missing one of k is k*((k-1)/k)^tries < 1e-10 for these numbers)
+		k := 0
+		for _, i := range registered(cs) {
+			if i.svc == p.dst.svc&0x7fff {
+				k++
+			}
+		}
+		tries = 64 + 45*k
 	}
 	var aps []netip.AddrPort
 	ans, ok := vlib.Safe(func() string {
@@ -1330,11 +1337,6 @@ func main() {
 	// write barriers) out of the way
 	if os.Getenv("GOGC") == "" {
 		debug.SetGCPercent(100)
-	}
-	if pf := os.Getenv("RCFG_PROF"); pf != "" {
-		f, _ := os.Create(pf)
-		_ = pprof.StartCPUProfile(f)
-		defer pprof.StopCPUProfile()
 	}
 	initWorkers()
 	switch e.Prop {
